@@ -50,6 +50,13 @@ def extra_run(man, tier, seed):
     for _ in range(100 if tier == 'quick' else 5000):
         x = math.exp(rng.uniform(-6, 6))
         pairs.append((f'ln_gammafn - {enc(x)}', f'hand.ln_gamma_spec - {enc(x)}', 'ln_gammafn', 1e-10, 1e-13))
+    # the rule itself: an n-point Gauss–Legendre rule integrates x^k over [-1, 1] exactly for k < 2n: 2/(k+1) (k even), 0 (k odd)
+    exact_lines, exact_want = [], []
+    for nq in range(2, 31):
+        for k in ([0, 1, 2, 3, 2 * nq - 2, 2 * nq - 1] if tier == 'quick' else range(2 * nq)):
+            exact_lines.append(f'gauss_legendre_quadrature_monomial - {nq} {k} {enc((-1.0, 1.0))}')
+            exact_want.append(2.0 / (k + 1) if k % 2 == 0 else 0.0)
+    ex_impl, _ = run_pair(exact_lines, want_model=False)
     impl, _ = run_pair([p[0] for p in pairs], want_model=False)
     p = subprocess.run([driver_path()], input='\n'.join(q[1] for q in pairs) + '\n', capture_output=True, text=True)
     orc = p.stdout.split('\n')
@@ -64,8 +71,15 @@ def extra_run(man, tier, seed):
             vals = [tok_to_float(t) for t in il.split()[2:] if t.startswith('x')]
             failures.append({'site': site, 'case': il, 'spec_case': ol, 'impl': a, 'expected': b, 'detail': detail,
                              'observed': 'panic' if a == 'PANIC' else ('nan' if 'nan' in detail else 'value'), 'args': vals})
+    for l, a, w in zip(exact_lines, ex_impl, exact_want):
+        if a == 'NOOP':
+            break
+        v = tok_to_float(a) if a.startswith('x') else float('nan')
+        if not (abs(v - w) <= 1e-12):
+            failures.append({'site': 'gauss_legendre_table', 'case': l, 'spec_case': '', 'impl': a, 'expected': repr(w), 'detail': f'{v!r} vs exact integral {w!r}',
+                             'observed': 'panic' if a == 'PANIC' else ('nan' if v != v else 'value'), 'args': []})
     return {'obligations': [], 'failures': failures,
-            'stats': {'evaluations': len(pairs), 'distinct_nontrivial': nontrivial}, 'samples': [pairs[0][0], pairs[-1][0]]}
+            'stats': {'evaluations': len(pairs) + len(exact_lines), 'distinct_nontrivial': nontrivial + len(exact_lines)}, 'samples': [pairs[0][0], pairs[-1][0]]}
 
 
 INPUT_CLASSES = {}
